@@ -497,6 +497,8 @@ impl ContinuityStore {
         while tail_bytes <= MAX_TAIL_BYTES {
             #[cfg(rip_verif)]
             rip_kernel::verif::point("scan.iter", "compile_input.tail");
+            #[cfg(rip_verif)]
+            rip_kernel::verif::point("compile.before_tail", continuity_id);
             match self.stream_cache.scan_tail_messages_runs_v1(
                 continuity_id,
                 MAX_TAIL_EVENTS,
